@@ -270,4 +270,4 @@ def c05g(db, res):
                             bad = end[3]
                 res.check(bad is None, 'C05.g', '%s:%s:receiver-flushed' % (name, hook), 'the receiver is flushed in the function that runs the hook',
                           '%s runs %s and returns successfully without %s(): the last piece of raw trailer data is delivered by the safety net in the completion function, after the COMPLETE callback' % (name, hook, fin), (bad or c).get('loc', f.loc))
-    res.floor('C05.g', 'TRAILER hook runs', n, 3)
+    res.floor('C05.g', 'TRAILER hook runs', n, 2)
